@@ -462,3 +462,86 @@ func c17Sentinel(c *Ctx) {
 }
 
 var _ = types.Typ
+
+// ------------------------------------------------------------------------------ R17l
+
+// c17DescriptorDiscriminator: NewFile writes the 64-bit data descriptor whatever the sizes, so
+// sizes alone cannot tell the reader which layout it is looking at (for an empty member both
+// fit). The reader must consult something the writer records for that purpose.
+func c17DescriptorDiscriminator(c *Ctx) {
+	p := c.P
+	nf := p.Func("lib/zipslicer.(*Directory).NewFile")
+	rd := p.Func("lib/zipslicer.(*File).readDataDesc")
+	if nf == nil || rd == nil {
+		c.Undecided("R17l", "NewFile/readDataDesc", "-", "function not found")
+		return
+	}
+	// writer: which descriptor types does it serialise, and is the choice size-dependent?
+	var useDesc *ssa.Parameter
+	for _, pa := range nf.Params {
+		if pa.Name() == "useDesc" {
+			useDesc = pa
+		}
+	}
+	wide, narrow := false, false
+	for _, io := range p.binIOIn([]*ssa.Function{nf}) {
+		if !io.Write {
+			continue
+		}
+		switch io.Type {
+		case "lib/zipslicer.zipDataDesc64":
+			wide = true
+		case "lib/zipslicer.zipDataDesc":
+			narrow = true
+		}
+	}
+	if !wide || narrow {
+		c.PassTrivial("R17l", "descriptor layout written by NewFile", p.Pos(nf.Pos()), "the writer does not emit the 64-bit layout unconditionally; the size-based inference is unambiguous for what it writes")
+		return
+	}
+	// the mark the writer leaves: ReaderVersion = zip45 on the useDesc side
+	markOK := false
+	if useDesc != nil {
+		g := Guard{Name: "useDesc", Match: func(f Fact) bool { return f.V == ssa.Value(useDesc) && f.Kind == IsTrue }}
+		for _, b := range nf.Blocks {
+			for _, in := range b.Instrs {
+				st, ok := in.(*ssa.Store)
+				if !ok {
+					continue
+				}
+				if tn, f, _ := p.fieldAddr(st.Addr); tn == "lib/zipslicer.File" && f == "ReaderVersion" && isIntConst(st.Val, 45) {
+					if missing, _ := p.unguardedFromEntry(nf, st, g); len(missing) == 0 {
+						markOK = true
+					}
+				}
+			}
+		}
+	}
+	c.Check(markOK, "R17l", "NewFile marks members with a 64-bit descriptor as ZIP64 (version 45)", p.Pos(nf.Pos()), "", "NewFile writes the 64-bit descriptor layout without marking the member as needing ZIP64 support: no reader can tell the layout of an empty member")
+	// reader: the branch that reads the second half of the descriptor depends on that mark
+	var wideRead ssa.Instruction
+	for _, io := range p.binIOIn([]*ssa.Function{rd}) {
+		if !io.Write && io.Type == "lib/zipslicer.zipDataDesc64" {
+			wideRead = io.Call
+		}
+	}
+	if wideRead == nil {
+		c.Fail("R17l", "readDataDesc reads the 64-bit layout", p.Pos(rd.Pos()), "readDataDesc never decodes a 64-bit descriptor although NewFile writes one")
+		return
+	}
+	consults := false
+	for _, b := range rd.Blocks {
+		ifi, ok := b.Instrs[len(b.Instrs)-1].(*ssa.If)
+		if !ok {
+			continue
+		}
+		if dependsOn(ifi.Cond, func(x ssa.Value) bool {
+			tn, f, _ := p.fieldLoad(x)
+			return tn == "lib/zipslicer.zipLocalHeader" && f == "ReaderVersion"
+		}) && reach(rd, b.Succs, nil, nil)[wideRead.Block().Index] {
+			consults = true
+		}
+	}
+	c.Check(consults, "R17l", "readDataDesc consults the ZIP64 mark when choosing the layout", p.Pos(wideRead.Pos()), "the choice depends on lfh.ReaderVersion",
+		"readDataDesc chooses between the 16-byte and the 24-byte descriptor by comparing sizes only, while NewFile writes the 24-byte layout for members of every size: for an empty member both layouts match (the upper half of a 64-bit compressed size is zero) and relic takes its own member to be 8 bytes shorter than it is; re-signing then cuts the archive in the wrong place")
+}
